@@ -189,7 +189,9 @@ def standard_run(prop, tier, seed, mc_module, monitor, instances, kinds, rule, n
     if never:
         seen.add('!model actions never taken: %s' % never)
         raise pipeline.MachineryFailure('vacuous model run: the actions %s of spec/Lomond.tla were never taken (TLC -coverage)' % never)
-    for label, b, sc, log in results[:2] + results[len(results) // 2: len(results) // 2 + 1]:
+    interesting = [x for x in results if nontrivial(x[3], x[2]) is not None] or results
+    picks = [interesting[0], interesting[len(interesting) // 2], interesting[-1]] if interesting else []
+    for label, b, sc, log in picks:
         r.samples.append({"instance": label, "scenario": sc,
                           "trace": [x for x in slim(log, set(sample_keys) | {'call'})][:40]})
     for tid, clause in rej:
